@@ -6,8 +6,8 @@ from harness.report import Report
 from harness.terms import jkey
 
 
-def consts(site, wf, sup):
-    dopts = ([["field", "type"]] if wf else []) + [["include_subtypes", True]] + ([["include_supertypes", True]] if sup else [])
+def consts(site, wf, sup, shared=False):
+    dopts = ([["field", "type"]] if wf else []) + [["include_subtypes", True]] + ([["include_supertypes", True]] if sup else []) + ([["shared", "D1"]] if shared else [])
     root = ["dc", "R", [["v", ["int"], ["req"], []]],
             [["classvars", [["type", ["str", "r"]]]]] + ([["discriminator", dopts], ["discr_field", "type"]] if site == "config" else [])]
     holder = ["dc", "HD", [["f", ["discr", root, dopts], ["req"], []]], []]
@@ -17,11 +17,11 @@ def consts(site, wf, sup):
     return dopts, root, holder
 
 
-def histories(rep, wd, combos, maxlen, faults=False, clause=None, label_extra="", nested=False):
+def histories(rep, wd, combos, maxlen, faults=False, clause=None, label_extra="", nested=False, shared=False):
     """TLC enumerates every history of MC_C12 for the given sites; each is replayed against the real library"""
     for site, wf, sup in combos:
         ml = maxlen - 1 if site == "pair" else maxlen          # the pair site has 16 inputs x 4 definitions: one step shorter
-        cfg = core.cfg_text("MC_C12.cfg", Site=f'"{site}"', WithField=wf, Supertypes=sup, MaxLen=ml, Faults=faults, Nested=nested)
+        cfg = core.cfg_text("MC_C12.cfg", Site=f'"{site}"', WithField=wf, Supertypes=sup, MaxLen=ml, Faults=faults, Nested=nested, Shared=shared)
         label = f"MC_C12 site={site} field={wf} supertypes={sup} nested={nested} len<={ml}{label_extra}: VariantChoice RegistrySound NoInheritedTag"
         if faults:
             r = core.run_mc_with_table("MC_C12", wd, [(["int"], [["str", "bad"]])], cfg=cfg, rep=rep, label=label, timeout=3000)
@@ -31,7 +31,7 @@ def histories(rep, wd, combos, maxlen, faults=False, clause=None, label_extra=""
         if r.violated:
             raise tlc.MachineryError(f"model property violated on the reference spec: {r.violated}")
         behs = [p[1] for p in r.printed if p[0] == "beh"]
-        dopts, root, holder = consts(site, wf, sup)
+        dopts, root, holder = consts(site, wf, sup, shared)
         agg = behave.replay_c12(site, root, holder, dopts, behs)
         rep.count(agg["events"])
         rep.cov["traces_validated_against_impl"] += agg["behaviours"]
@@ -64,6 +64,8 @@ def run(prop, tier, seed):
     combos = [(s, wf, sup) for s in ("config", "field", "codec") for wf in (True, False) for sup in (False, True)
               if not (s == "config" and sup)] + [("pair", True, False)]
     histories(rep, wd, combos, maxlen)
+    # one Discriminator object shared with an unrelated class's Config (defined at any point of the history)
+    histories(rep, wd, [("codec", True, True), ("field", True, True)], maxlen, shared=True, label_extra=" shared Discriminator object")
     # two dispatch levels: a variant that declares its own class-level discriminator on another field
     histories(rep, wd, [(s, True, False) for s in ("config", "field", "codec")], maxlen, nested=True, label_extra=" nested levels")
     if tier != "quick":
